@@ -449,6 +449,10 @@ package task
 //@   init evalFailed := false
 //@   site execext.RunCommand#1 ghost evalFailed := result != nil
 //@   site mapstore#0 requires !evalFailed || arg0 != c.dynamicCache                                            [C11]
+// the result is remembered under the command AND the directory it ran in: tasks with different dirs never get
+// each other's value
+//@   site execext.RunCommand#1 requires arg1.Command == key.sh && arg1.Dir == key.dir                          [C11]
+//@   site mapstore#1 requires arg1.sh == key.sh && arg1.dir == key.dir                                         [C11]
 
 // ---- C11: compiling a task builds a fresh object graph ---------------------------------------------------
 // Every command, dependency and precondition put into the compiled task is a copy made during this call (so
